@@ -1773,6 +1773,7 @@ func main() {
 	common.Genesis = nil
 	setHeight(height)
 	astTie()
+	sizeGuardTie()
 	r := hx.NewRng(a.Seed)
 	cs = hx.NewCases(a.Out, "From Coq Require Import ZArith.\nFrom V.C07 Require Import Model Harness.", "(fld * fld * N * N) * tx * list oent * obs", "check", 150)
 	thorough := a.Tier == "thorough"
@@ -1926,7 +1927,6 @@ func main() {
 	res.Note(fmt.Sprintf("two-field boundary shifts (same preimage, same hash and signature, different declared fields; outside the property's single-field quantifier): %d of %d accepted", shiftAccepted, shiftTotal))
 	res.Note("chain id " + chainStr + " at height " + strconv.FormatUint(height, 10))
 	admissionPhase(r, a.N/3+6)
-	sizeGuardTie()
 	sizeFamily(r, thorough, eval)
 	completenessStream(r, thorough, eval)
 	recheck("after other transactions") // flush before the configuration changes
